@@ -238,7 +238,7 @@ func init() {
 		ID: "C28", Level: "exploration",
 		Rule: "generated histories with stake period 6 whose block times step through several days in jumps of 20 minutes to 6 hours (so that first-of-period blocks land inside and outside 12:00-14:59, less and more than 3 h after the previous update) while large aimed trades move the BIP/USDT pool price by about -9.9/-10/-10.1/-20/+x percent between updates and back; families: normal, capped (emission just below 10^10), bare (no BIP/USDT pool); a reference state machine written from the statement (exact rationals for the percentage, independent 1100-bit 4th root for 350*p^(1/4)) predicts for every block whether an update happens, the validators' share, the minted reward, the emission step, the burn of the withheld part and the persisted price record; one evaluation = one block judged; distinct = rule classes reached (no-update, normal, -9%, drop, exactly -10%, recovering, recovery-complete, capped, withheld-part-burned)",
 		Assumptions: []string{"the first block of a chain is not judged (version heights are exclusive, it still runs the pre-v320 rule)", "the node's 100-bit float result is accepted within 2^-58 relative + 2 pip (the price ratio is a 64-bit big.Float in the node) and then adopted"},
-		Quick: 36, Thorough: 900, MinEval: 3000, MinDistinct: 6,
+		Quick: 36, Thorough: 360, MinEval: 3000, MinDistinct: 6,
 		Run: func(ctx *WorkCtx, idx int) {
 			r := Rng(ctx.Seed, "C28", idx)
 			sc := StdScenario(idx, r, 220)
@@ -248,6 +248,10 @@ func init() {
 				sc.Spec.Emission = "9999999000000000000000000000" // reaches the cap during the history
 			case 5:
 				sc.Spec.NoUSDT = true
+			case 1, 3:
+				// recovery under way at genesis: completes after 1..4 quiet updates (lead: added after seed C28-m1, recoveries from zero need ~10 updates and were rarely completed)
+				sc.Spec.NoUSDT = false
+				sc.Spec.Recovering = 1 + (idx/6)%4
 			default:
 				sc.Spec.NoUSDT = false
 				if sc.Spec.Emission != "" && idx%10 == 5 {
@@ -266,7 +270,8 @@ func init() {
 				req.Time = s.T.Add(time.Duration(20+r.Intn(340)) * time.Minute)
 				// aimed trades on the BIP/USDT pool: push the price down by a chosen fraction, later bring it back
 				pending = nil
-				if r0, r1 := usdtReserves(s.Post); r0 != nil && r.Intn(3) == 0 {
+				quiet := sc.Spec.Recovering > 0 && b < 110 // no aimed price moves while the genesis recovery runs
+				if r0, r1 := usdtReserves(s.Post); r0 != nil && r.Intn(3) == 0 && !quiet {
 					var rich *Key
 					for _, k := range s.W.Users {
 						if s.N.App.CurrentState() != nil && s.N.App.CurrentState().Accounts().GetBalance(k.Addr, 0).Cmp(new(big.Int).Div(r0, big.NewInt(7))) > 0 {
